@@ -1,6 +1,6 @@
 CONSTANTS
   ProgOf <- FamProgOf
-  MaxSteps = 6000
+  MaxSteps = 20000
   CtxDepth = 2
   HistLen = 4
   EmitOn = TRUE
